@@ -107,6 +107,8 @@ type Exec struct {
 	Log      []string // harness observations (only touched by the running goroutine)
 	Blocked  []string // description of parked goroutines at deadlock
 	Panics   int
+	Races    []string // conflicting access windows (see access.go)
+	windows  []window
 	Stacks   []string // full stacks of panics (not deterministic: goroutine numbers, addresses)
 	// fault injection hook: called at every point before alternatives are computed.
 	userData any
@@ -180,6 +182,7 @@ type Result struct {
 	NG       int
 	Panics   int
 	Stacks   []string
+	Races    []string
 }
 
 // Run executes body as controlled goroutine 0 under the schedule given by
@@ -195,7 +198,7 @@ func Run(prefix []int, maxPoints int, body func()) *Result {
 	g0.wake <- struct{}{}
 	<-e.finished
 	current.Store(nil)
-	r := &Result{Points: e.Points, Deadlock: e.Deadlock, Horizon: e.Horizon, Diverged: e.Diverged, Log: e.Log, Blocked: e.Blocked, NG: len(e.gs), Panics: e.Panics, Stacks: e.Stacks}
+	r := &Result{Points: e.Points, Deadlock: e.Deadlock, Horizon: e.Horizon, Diverged: e.Diverged, Log: e.Log, Blocked: e.Blocked, NG: len(e.gs), Panics: e.Panics, Stacks: e.Stacks, Races: e.Races}
 	for _, p := range e.Points {
 		r.Choices = append(r.Choices, p.Chosen)
 	}
